@@ -65,12 +65,20 @@ type docMember struct {
 	raw  []byte
 }
 
+// c05Escapes: how the independent writer spells strings - JSON allows any character to be written as an escape.  0: as they are;
+// 1: &, < and > as \u0026 ... (encoding/json's default) and / as \/ (PHP's default).  Set per document by writeDoc.
+var c05Escapes = 0
+
 func jsonScalar(v interface{}) []byte {
 	var buf bytes.Buffer
 	enc := json.NewEncoder(&buf)
-	enc.SetEscapeHTML(false)
+	enc.SetEscapeHTML(c05Escapes == 1)
 	_ = enc.Encode(v)
-	return bytes.TrimRight(buf.Bytes(), "\n")
+	out := bytes.TrimRight(buf.Bytes(), "\n")
+	if _, isString := v.(string); isString && c05Escapes == 1 {
+		out = bytes.ReplaceAll(out, []byte("/"), []byte(`\/`))
+	}
+	return out
 }
 
 func writeXSDDuration(d time.Duration) string {
@@ -258,6 +266,11 @@ func docStruct(sv reflect.Value, ch docChooser, top bool) []byte {
 // WriteDoc renders the document for a value.
 func writeDoc(x ap.Item, ch docChooser) []byte {
 	sv, _ := vocab.StructOf(x)
+	c05Escapes = 0
+	if ch.Bool("escaped-spelling") {
+		c05Escapes = 1
+	}
+	defer func() { c05Escapes = 0 }()
 	return docStruct(sv, ch, true)
 }
 
@@ -358,7 +371,7 @@ func TestC05(t *testing.T) {
 	defer r.Close(t)
 	r.Rule("cells: one document per struct type x field x admissible shape (the model is the expected value; the document is rendered by an independent writer: encoding/json scalars + jsonld tags), in two renderings " +
 		"(canonical; reversed member order with single values wrapped in arrays, single tagged strings as one-entry language maps, @context); random: random models nested to the depth bound with random neutral " +
-		"rendering choices (member order, v vs [v], plain vs Map, zone offsets); mocks: the 19 repository documents and their structure-preserving mutations (v <-> [v], member order). Oracle: Diff(model, decoded) under " +
+		"rendering choices (member order, v vs [v], plain vs Map, zone offsets, &<>/ written as they are or as JSON escapes); mocks: the 19 repository documents and their structure-preserving mutations (v <-> [v], member order). Oracle: Diff(model, decoded) under " +
 		"the JSON normal form (nothing ignored, invented or misplaced) + same concrete type; fixpoint decode/encode/decode/encode (values equal, bytes stable); mocks: declared members accounted for in the value. " +
 		"non-trivial = document has a member besides id/type/@context; distinct by document bytes")
 	r.Assume("IRIs absolute, ids of list members pairwise non-equivalent, durations whole seconds below 27 days, floats n/64")
